@@ -5,11 +5,11 @@ package main
 // texts to damage (hex/base64/UTF-8/UTF-16 inputs of the decode jobs).
 
 import (
-	"os"
 	"encoding/base64"
 	"encoding/hex"
 	"math/big"
 	"math/rand"
+	"os"
 	"strings"
 	"unicode/utf16"
 )
